@@ -576,7 +576,13 @@ class _Enc:
                     w(f'{tgt} = {self.m.constraint_value(name, f.name, cs[f.name]):#x}u64;')
                     continue
                 if f.cond is not None:
-                    w.open(f'if flag_{lv}_{f.cond[0]} == {f.cond[1]} {{')
+                    # a flag shared by several optional fields: the presence of every field after the first is drawn
+                    # independently (flag xor one more bit), so contradictory Option patterns are part of the value space
+                    if flags[f.cond[0]][0][0] != f.name:
+                        w(f'let pres_{lv}_{f.name}: u64 = flag_{lv}_{f.cond[0]} ^ (s.word() & 1);')
+                        w.open(f'if pres_{lv}_{f.name} == {f.cond[1]} {{')
+                    else:
+                        w.open(f'if flag_{lv}_{f.cond[0]} == {f.cond[1]} {{')
                     w(f'{tgt} = ROpt {{ some: true, v: {self._draw_expr(f)} }};')
                     w.close()
                 elif f.kind == 'array':
@@ -891,7 +897,10 @@ class _Enc:
                     if f.name in cs:
                         continue
                     if f.cond is not None:
-                        vals[f.name] = draw_field(f) if fv[f.cond[0]] == f.cond[1] else None
+                        pres = fv[f.cond[0]]
+                        if flags[f.cond[0]][0][0] != f.name:
+                            pres ^= next(it) & 1
+                        vals[f.name] = draw_field(f) if pres == f.cond[1] else None
                     elif f.kind == 'array':
                         if f.count is not None:
                             cnt, loop = f.count, f.count
